@@ -1,0 +1,315 @@
+//go:build verif
+
+package ecs
+
+import (
+	"fmt"
+	"hash/fnv"
+	"sort"
+	"unsafe"
+)
+
+// Verification hooks. Only compiled with build tag `verif`; add-only, no effect on behaviour.
+
+// VerifPoint, if set, is called at instrumented points inside structural operations
+// (between column copies, and while an entity is in neither table's index).
+// It must only be set while no world is in use, by a single-goroutine driver.
+var VerifPoint func(site int)
+
+// Sites passed to VerifPoint.
+const (
+	VerifSiteCopy     = 1 // inside archetype.copy, before the bytes are copied
+	VerifSiteExchange = 2 // exchangeNoNotify: row allocated in new table, not yet removed from old
+	VerifSiteRelation = 3 // setRelation: row allocated in new table, not yet removed from old
+)
+
+func verifPoint(site int) {
+	if VerifPoint != nil {
+		VerifPoint(site)
+	}
+}
+
+// VerifShape returns a digest of hidden world state: tables per node with len/cap/active flag/target,
+// node free lists, cache lists, entity free-list shape and lock bits.
+// Used as a "distinct states reached" measure only.
+func (w *World) VerifShape() uint64 {
+	h := fnv.New64a()
+	wr := func(vals ...uint64) {
+		var b [8]byte
+		for _, v := range vals {
+			for i := 0; i < 8; i++ {
+				b[i] = byte(v >> (8 * i))
+			}
+			h.Write(b[:])
+		}
+	}
+	bo := func(b bool) uint64 {
+		if b {
+			return 1
+		}
+		return 0
+	}
+	nn := w.nodes.Len()
+	var i int32
+	for i = 0; i < nn; i++ {
+		nd := w.nodes.Get(i)
+		wr(0xA0, uint64(i), bo(nd.IsActive), bo(nd.HasRelation), uint64(len(nd.Ids)))
+		for _, id := range nd.Ids {
+			wr(uint64(id.id))
+		}
+		if !nd.IsActive {
+			continue
+		}
+		arches := nd.Archetypes()
+		na := arches.Len()
+		var j int32
+		for j = 0; j < na; j++ {
+			a := arches.Get(j)
+			wr(0xA1, uint64(j), uint64(a.len), uint64(a.cap), bo(a.IsActive()), uint64(a.RelationTarget.id), uint64(a.RelationTarget.gen))
+		}
+		for _, f := range nd.freeIndices {
+			wr(0xA2, uint64(f))
+		}
+	}
+	for k := range w.filterCache.filters {
+		e := &w.filterCache.filters[k]
+		wr(0xB0, uint64(e.ID), uint64(len(e.Archetypes.pointers)), bo(e.Indices != nil))
+		for _, a := range e.Archetypes.pointers {
+			if a == nil {
+				wr(0xB1)
+				continue
+			}
+			wr(0xB2, uint64(a.len), uint64(a.RelationTarget.id))
+		}
+	}
+	wr(0xC0, uint64(len(w.entityPool.entities)), uint64(w.entityPool.next), uint64(w.entityPool.available))
+	for _, e := range w.entityPool.entities {
+		wr(uint64(e.id), uint64(e.gen))
+	}
+	wr(0xD0, uint64(w.locks.locks.TotalBitsSet()), uint64(w.locks.bitPool.length), uint64(w.locks.bitPool.available))
+	return h.Sum64()
+}
+
+// VerifStats reports a few structural counters used as reach probes by the verification driver.
+type VerifStats struct {
+	Nodes, ActiveNodes           int
+	Tables, ActiveTables         int
+	RelationTables, RetiredFree  int
+	MaxRelTablesPerNode          int
+	CacheEntries, CacheIndexMaps int
+	EntitySlots, FreeEntities    int
+	Layouts                      int
+}
+
+// VerifStats returns structural counters (see [VerifStats]).
+func (w *World) VerifStats() VerifStats {
+	s := VerifStats{}
+	nn := w.nodes.Len()
+	var i int32
+	for i = 0; i < nn; i++ {
+		nd := w.nodes.Get(i)
+		s.Nodes++
+		if !nd.IsActive {
+			continue
+		}
+		s.ActiveNodes++
+		arches := nd.Archetypes()
+		na := arches.Len()
+		if nd.HasRelation && int(na) > s.MaxRelTablesPerNode {
+			s.MaxRelTablesPerNode = int(na)
+		}
+		var j int32
+		for j = 0; j < na; j++ {
+			a := arches.Get(j)
+			s.Tables++
+			if nd.HasRelation {
+				s.RelationTables++
+			}
+			if a.IsActive() {
+				s.ActiveTables++
+			}
+			if len(a.layouts) > s.Layouts {
+				s.Layouts = len(a.layouts)
+			}
+		}
+		s.RetiredFree += len(nd.freeIndices)
+	}
+	s.CacheEntries = len(w.filterCache.filters)
+	for k := range w.filterCache.filters {
+		if w.filterCache.filters[k].Indices != nil {
+			s.CacheIndexMaps++
+		}
+	}
+	s.EntitySlots = len(w.entityPool.entities)
+	s.FreeEntities = int(w.entityPool.available)
+	return s
+}
+
+// VerifCheckInvariants checks structural invariants of the hidden state.
+// A failure never decides a verdict by itself; it only marks a run as suspect.
+func (w *World) VerifCheckInvariants() (err error) {
+	defer func() {
+		if r := recover(); r != nil {
+			err = fmt.Errorf("invariant checker panicked: %v", r)
+		}
+	}()
+
+	pool := &w.entityPool
+	if len(w.entities) != len(pool.entities) {
+		return fmt.Errorf("entity index has %d slots, pool has %d", len(w.entities), len(pool.entities))
+	}
+	// free list
+	seen := map[eid]bool{}
+	cur := pool.next
+	for k := uint32(0); k < pool.available; k++ {
+		if cur == 0 || int(cur) >= len(pool.entities) {
+			return fmt.Errorf("free list leaves the pool at step %d (id %d)", k, cur)
+		}
+		if seen[cur] {
+			return fmt.Errorf("free list cycle at id %d", cur)
+		}
+		seen[cur] = true
+		cur = pool.entities[cur].id
+	}
+	aliveCount := 0
+	for i := 1; i < len(pool.entities); i++ {
+		e := pool.entities[i]
+		isFree := seen[eid(i)]
+		if !isFree && e.id != eid(i) {
+			return fmt.Errorf("entity slot %d neither alive nor in free list", i)
+		}
+		if isFree {
+			continue
+		}
+		aliveCount++
+		idx := w.entities[i]
+		if idx.arch == nil {
+			return fmt.Errorf("alive entity %v has no table", e)
+		}
+		if !idx.arch.IsActive() {
+			return fmt.Errorf("alive entity %v in inactive table", e)
+		}
+		if idx.index >= idx.arch.len {
+			return fmt.Errorf("alive entity %v row %d >= len %d", e, idx.index, idx.arch.len)
+		}
+		if got := idx.arch.GetEntity(idx.index); got != e {
+			return fmt.Errorf("alive entity %v: row %d holds %v", e, idx.index, got)
+		}
+	}
+	if aliveCount != pool.Len() {
+		return fmt.Errorf("alive count %d != pool.Len %d", aliveCount, pool.Len())
+	}
+
+	// tables
+	total := 0
+	active := map[*archetype]bool{}
+	nn := w.nodes.Len()
+	var i int32
+	for i = 0; i < nn; i++ {
+		nd := w.nodes.Get(i)
+		if !nd.IsActive {
+			continue
+		}
+		arches := nd.Archetypes()
+		na := arches.Len()
+		nActive := 0
+		var j int32
+		for j = 0; j < na; j++ {
+			a := arches.Get(j)
+			if a.len > a.cap {
+				return fmt.Errorf("node %d table %d: len %d > cap %d", i, j, a.len, a.cap)
+			}
+			if !a.IsActive() {
+				if a.len != 0 {
+					return fmt.Errorf("node %d table %d: inactive but len %d", i, j, a.len)
+				}
+			} else {
+				nActive++
+				active[a] = true
+				total += int(a.len)
+				if nd.HasRelation {
+					if m, ok := nd.archetypeMap[a.RelationTarget]; !ok || m != a {
+						return fmt.Errorf("node %d table %d: active but not mapped for target %v", i, j, a.RelationTarget)
+					}
+				}
+			}
+			// rows >= len must be zero
+			for _, id := range nd.Ids {
+				lay := a.getLayout(id)
+				if lay.pointer == nil {
+					return fmt.Errorf("node %d table %d: nil column for id %d", i, j, id.id)
+				}
+				if lay.itemSize == 0 {
+					continue
+				}
+				n := uintptr(a.cap-a.len) * uintptr(lay.itemSize)
+				if n == 0 {
+					continue
+				}
+				start := unsafe.Add(lay.pointer, uintptr(a.len)*uintptr(lay.itemSize))
+				bytes := unsafe.Slice((*byte)(start), n)
+				for k, b := range bytes {
+					if b != 0 {
+						return fmt.Errorf("node %d table %d id %d: non-zero byte at free offset %d", i, j, id.id, k)
+					}
+				}
+			}
+		}
+		if nd.HasRelation {
+			if len(nd.archetypeMap) != nActive {
+				return fmt.Errorf("node %d: map has %d targets, %d active tables", i, len(nd.archetypeMap), nActive)
+			}
+			if int(na)-len(nd.freeIndices) != nActive {
+				return fmt.Errorf("node %d: %d tables, %d free, %d active", i, na, len(nd.freeIndices), nActive)
+			}
+			fs := append([]int32{}, nd.freeIndices...)
+			sort.Slice(fs, func(a, b int) bool { return fs[a] < fs[b] })
+			for k := 1; k < len(fs); k++ {
+				if fs[k] == fs[k-1] {
+					return fmt.Errorf("node %d: table %d twice in free list", i, fs[k])
+				}
+			}
+		}
+	}
+	if total != pool.Len() {
+		return fmt.Errorf("tables hold %d rows, %d entities alive", total, pool.Len())
+	}
+
+	// cache lists
+	for k := range w.filterCache.filters {
+		e := &w.filterCache.filters[k]
+		have := map[*archetype]int{}
+		for pos, a := range e.Archetypes.pointers {
+			if a == nil {
+				return fmt.Errorf("cache entry %d: nil table at %d", e.ID, pos)
+			}
+			if _, dup := have[a]; dup {
+				return fmt.Errorf("cache entry %d: table listed twice", e.ID)
+			}
+			have[a] = pos
+			if !a.IsActive() {
+				return fmt.Errorf("cache entry %d: lists an inactive table", e.ID)
+			}
+		}
+		for a, pos := range e.Indices {
+			if p, ok := have[a]; !ok || p != pos {
+				return fmt.Errorf("cache entry %d: index map stale", e.ID)
+			}
+		}
+		if e.Indices != nil {
+			for a, pos := range have {
+				if a.HasRelation() {
+					if p, ok := e.Indices[a]; !ok || p != pos {
+						return fmt.Errorf("cache entry %d: relation table missing from index map", e.ID)
+					}
+				}
+			}
+		}
+	}
+
+	// locks
+	if w.locks.locks.TotalBitsSet() != int(w.locks.bitPool.length)-int(w.locks.bitPool.available) {
+		return fmt.Errorf("lock bits %d != pool in use %d", w.locks.locks.TotalBitsSet(), int(w.locks.bitPool.length)-int(w.locks.bitPool.available))
+	}
+	return nil
+}
